@@ -132,6 +132,14 @@ template<glm::qualifier Q> void mat_ops(size_t k, std::vector<float> const& M) {
       M4 m2 = m; m2[3] = V4(float(int(k % 7) - 3), 2.0f, -1.0f, 1.0f); float sc2 = 1.0f + float(k % 4) * 0.5f; m2[0] *= sc2; M4 inv2 = glm::inverse(m2); EV("inverse", float, Q, 16).arg(m2).res(inv2).emit(); float d2 = glm::determinant(m2); EV("det", float, Q, 16).arg(m2).res(d2).emit();
       M4 ai = glm::affineInverse(m2); EV("affineInverse", float, Q, 16).arg(m2).res(ai).emit(); M4 it = glm::inverseTranspose(m2); EV("inverseTranspose", float, Q, 16).arg(m2).res(it).emit(); }
 }
+// double matrices: the AVX / SSE2 double specialisations of mul4x4 (splats) and mat * vec
+template<glm::qualifier Q> void dmat_ops(size_t k, std::vector<double> const& M) {
+    typedef glm::mat<4, 4, double, Q> M4; typedef glm::vec<4, double, Q> V4;
+    M4 a, b; for (int i = 0; i < 16; ++i) { a[i / 4][i % 4] = M[(k * 3 + size_t(i)) % M.size()]; b[i / 4][i % 4] = M[(k * 7 + size_t(i) * 5 + 1) % M.size()]; }
+    V4 v = mk<4, double, Q>(M, k + 11);
+    { M4 r = a * b; EV("mm", double, Q, 16).arg(a).arg(b).res(r).emit(); V4 r2 = a * v; EV("mv", double, Q, 16).arg(a).arg(v).res(r2).emit(); V4 r3 = v * a; EV("vm", double, Q, 16).arg(v).arg(a).res(r3).emit(); }
+    { M4 t = glm::transpose(a); EV("tr", double, Q, 16).arg(a).res(t).emit(); M4 s = a + b; EV("madd", double, Q, 16).arg(a).arg(b).res(s).emit(); }
+}
 template<glm::qualifier Q> void quat_ops(size_t k, std::vector<float> const& M) {
     typedef glm::qua<float, Q> Qt; typedef glm::vec<3, float, Q> V3; typedef glm::vec<4, float, Q> V4;
     static const int tuples[][4] = { {1,1,1,1}, {1,2,2,4}, {2,4,5,6}, {0,3,4,0}, {1,0,0,0}, {0,0,0,1}, {2,3,6,0}, {1,4,8,0}, {-1,1,-1,1}, {4,-2,2,-1} };
@@ -141,6 +149,10 @@ template<glm::qualifier Q> void quat_ops(size_t k, std::vector<float> const& M) 
     V3 v = mk<3, float, Q>(M, k); V4 v4 = mk<4, float, Q>(M, k + 2); float sc = M[(k + 5) % M.size()] + 3.0f;
     { Qt r = p * q; EV("qmul", float, Q, 4).arg(p).arg(q).res(r).emit(); Qt s = p + q; EV("qadd", float, Q, 4).arg(p).arg(q).res(s).emit(); Qt d = p - q; EV("qsub", float, Q, 4).arg(p).arg(q).res(d).emit();
       Qt ms = p * sc; EV("qmuls", float, Q, 4).arg(p).arg(sc).res(ms).emit(); Qt ds = p / sc; EV("qdivs", float, Q, 4).arg(p).arg(sc).res(ds).emit();
+      { Qt m2 = p; m2 *= sc; EV("qmuls", float, Q, 4).arg(p).arg(sc).res(m2).emit(); Qt d2 = p; d2 /= sc; EV("qdivs", float, Q, 4).arg(p).arg(sc).res(d2).emit(); Qt a2 = p; a2 += q; EV("qadd", float, Q, 4).arg(p).arg(q).res(a2).emit(); Qt s2 = p; s2 -= q; EV("qsub", float, Q, 4).arg(p).arg(q).res(s2).emit(); }
+      { typedef glm::qua<double, Q> Qd; Qd pd = Qd::wxyz(double(t1[0]) / 8.0, double(t1[1]) / 8.0, double(t1[2]) / 8.0, double(t1[3]) / 8.0), qd = Qd::wxyz(double(t2[0]) / 4.0, double(t2[1]) / 4.0, double(t2[2]) / 4.0, double(t2[3]) / 4.0); double sd = double(sc);
+        Qd r = pd + qd; EV("qadd", double, Q, 4).arg(pd).arg(qd).res(r).emit(); Qd d = pd - qd; EV("qsub", double, Q, 4).arg(pd).arg(qd).res(d).emit(); Qd m = pd; m *= sd; EV("qmuls", double, Q, 4).arg(pd).arg(sd).res(m).emit();
+        Qd dv = pd; dv /= sd; EV("qdivs", double, Q, 4).arg(pd).arg(sd).res(dv).emit(); double dt = glm::dot(pd, qd); EV("qdot", double, Q, 4).arg(pd).arg(qd).res(dt).emit(); Qd pr = pd * qd; EV("qmul", double, Q, 4).arg(pd).arg(qd).res(pr).emit(); }
       V3 rv = p * v; EV("qrot", float, Q, 3).arg(p).arg(v).res(rv).emit(); V4 rv4 = p * v4; EV("qrot", float, Q, 4).arg(p).arg(v4).res(rv4).emit();
       float dt = glm::dot(p, q); EV("qdot", float, Q, 4).arg(p).arg(q).res(dt).emit(); float ln = glm::length(p * sc); Qt psc = p * sc; EV("qlength", float, Q, 4).arg(psc).res(ln).emit(); Qt nq = glm::normalize(psc); EV("qnormalize", float, Q, 4).arg(psc).res(nq).emit();
       Qt cj = glm::conjugate(p); EV("qconj", float, Q, 4).arg(p).res(cj).emit(); Qt iv = glm::inverse(psc); EV("qinverse", float, Q, 4).arg(psc).res(iv).emit();
@@ -162,6 +174,7 @@ static void body(int argc, char** argv) {
         int_ops<4, int, QH>(k, Si, SMi); int_ops<3, int, QH>(k, Si, SMi); int_ops<4, unsigned, QH>(k, Su, SMu); int_ops<3, unsigned, QM>(k, Su, SMu); int_ops<4, int, QL>(k, Si, SMi); int_ops<2, int, QH>(k, Si, SMi);
         double_ops<4, QH>(k, Md, Pd); double_ops<3, QH>(k, Md, Pd); double_ops<2, QM>(k, Md, Pd);
         mat_ops<QH>(k, M); mat_ops<QM>(k, M); mat_ops<QL>(k, M);
+        dmat_ops<QH>(k, Md); if (k % 3 == 0) dmat_ops<QM>(k, Md);
         quat_ops<QH>(k, M); quat_ops<QM>(k, M); quat_ops<QL>(k, M);
     }
 }
